@@ -323,31 +323,34 @@ def ob_csr_kernel():
             Ndof = Nn * dof_n
             for isMatrix in (True, False):
                 for order in itertools.permutations(allg):
-                    for absent in (None, tri, quad, seg):
+                    for absent, cplx_grp in [(ab_, cg_) for ab_ in (None, tri, quad, seg) for cg_ in (None, tri, seg) if cg_ is None or cg_ is not ab_]:
+                        # cplx_grp: the one group whose values are complex (real groups next to a complex one, in any position of the listing)
                         k = 0
-                        data, ref = {}, np.zeros((Ndof, Ndof if isMatrix else 1))
+                        data, ref = {}, np.zeros((Ndof, Ndof if isMatrix else 1), dtype=complex)
                         for grp in order:
                             if grp is absent:
                                 data[grp] = None
                                 continue
                             a = grp.Get_assembly_e(dof_n)
                             m = a.shape[1]
-                            X = np.zeros((grp.Ne, m, m) if isMatrix else (grp.Ne, m, 1))
+                            X = np.zeros((grp.Ne, m, m) if isMatrix else (grp.Ne, m, 1), dtype=complex if grp is cplx_grp else float)
                             for e in range(grp.Ne):
                                 for i in range(m):
                                     for j in range(m if isMatrix else 1):
                                         v = float(2 ** (k % 50)) + (k // 50) * 2.0 ** -3     # exact in binary floating point, sums stay exact
+                                        if grp is cplx_grp:
+                                            v = v + 1j * float(2 ** ((k * 7 + 3) % 50))
                                         k += 1
                                         X[e, i, j] = v
                                         ref[a[e, i], a[e, j] if isMatrix else 0] += v
                             data[grp] = X
                         got = f_asm(me, data, dof_n, Ndof, isMatrix)
-                        got = np.asarray(got.todense())
+                        got = np.asarray(got.todense()).astype(complex)
                         n += 1
                         if got.shape != ref.shape or not np.array_equal(got, ref):
                             bad = np.argwhere(got != ref)[:3].tolist() if got.shape == ref.shape else "shape"
-                            raise Refuted(f"scatter kernel (pass {rnd_}, dof_n={dof_n}, isMatrix={isMatrix}, groups listed {list(order)}, absent {absent}): assembled values differ from the "
-                                          f"sum of the entries of each (row, col) at {bad}", cex=dict(order=[str(x) for x in order], absent=str(absent), dof_n=dof_n, isMatrix=isMatrix, second_pass=bool(rnd_)),
+                            raise Refuted(f"scatter kernel (pass {rnd_}, dof_n={dof_n}, isMatrix={isMatrix}, groups listed {list(order)}, absent {absent}, complex values in {cplx_grp}): assembled values differ from the "
+                                          f"sum of the entries of each (row, col) at {bad}", cex=dict(order=[str(x) for x in order], absent=str(absent), complex_group=str(cplx_grp), dof_n=dof_n, isMatrix=isMatrix, second_pass=bool(rnd_)),
                                           signature="csr_kernel", replay=_replay_kernel())
     return Verdict(DISCHARGED, backend="extracted kernel on stub groups, exact binary values", sub=n)
 
@@ -455,7 +458,7 @@ def ob_scatter(case, seed):
             m = g.nPe * dof_n
             def rnd(shape):
                 a = rng.integers(-9, 10, size=shape).astype(float)
-                if cplx:
+                if cplx is True or (cplx == "notfirst" and gi > 0):       # "notfirst": real values in the first listed group, complex ones in the others
                     a = a + 1j * rng.integers(-9, 10, size=shape)
                 return a
             K = rnd((g.Ne, m, m))
@@ -516,10 +519,11 @@ def build(tier, seed):
              ("mixed", "-", 2, False, False), ("mixed", "-", 1, True, False),
              ("boundary", "segfirst", 2, False, False), ("boundary", "bulkfirst", 1, True, False), ("boundary", "interleaved", 3, False, False)]
     cases += [("boundary", f"order{k}", 1 + k % 2, False, False) for k in range(6)]
+    cases += [("boundary", "bulkfirst", 1, "notfirst", False), ("mixed", "-", 2, "notfirst", False), ("boundary", "order3", 2, "notfirst", False)]
     if tier == "thorough":
         cases += [("patch", et, dn, cx, True) for et in ("SEG3", "TRI6", "HEXA8", "PRISM6", "TETRA10") for dn in (1, 3) for cx in (False, True)]
     for cs, sd in [(c_, s_) for c_ in cases for s_ in (range(4) if tier == "thorough" else range(1))]:
-        obs.append(Ob(f"C03.scatter.{cs[0]}.{cs[1]}.dof{cs[2]}{'.complex' if cs[3] else ''}{'.perm' if cs[4] else ''}" + (f".s{sd}" if sd else ""), ob_scatter, (cs, seed + sd), "X",
+        obs.append(Ob(f"C03.scatter.{cs[0]}.{cs[1]}.dof{cs[2]}{'.complex' if cs[3] is True else ('.complexlater' if cs[3] else '')}{'.perm' if cs[4] else ''}" + (f".s{sd}" if sd else ""), ob_scatter, (cs, seed + sd), "X",
                       (f"{SP}::_Simu.Assembly", f"{SP}::_Simu.__Assemble_csr", f"{SP}::_Simu.__Get_csr_map"),
                       bound="hand-built 2-3 element meshes, 3 successive assemblies, integer-valued element data",
                       clause="every global matrix/vector equals the dense loop scatter-add exactly", timeout=120))
